@@ -21,6 +21,9 @@
   whiletrue `while c: body` -> `while True: if not c: break; body` (loops without else)
   dotformat `"..%s.." % (a, b)` with only %s -> `"..{}..".format(a, b)`
   listcopy  `for x in xs:` -> `for x in list(xs):` for every loop over a name / attribute / call
+  eafp      `x = D; if 'k' in kw: x = kw['k']` -> `try: x = kw['k']  except KeyError: x = D`
+  filterloop `for x in it: if c: B` -> `for x in filter(lambda x: c, it): B`
+  closure   the block of an `if` that binds no name and does not leave becomes a local function called in its place
   modalias  every package module is imported under another name (`from . import trees as trees_m`)
   fromimp   functions / constants of other package modules are imported directly (`from .trees import children`) wherever
             no scope of the importing module binds the same name
@@ -63,7 +66,15 @@ class Alpha(ast.NodeTransformer):
             if isinstance(n, ast.Lambda):
                 for a in n.args.args:
                     lam.add(a.arg)
-        ren = dict((s, s + '_r') for s in stores - params - lam if s != node.name)
+        # what a nested function reads or writes keeps its name (the nested function is left as it is)
+        inner = set()
+        for n in ast.walk(node):
+            if isinstance(n, ast.FunctionDef) and n is not node:
+                inner.add(n.name)
+                for m in ast.walk(n):
+                    if isinstance(m, ast.Name):
+                        inner.add(m.id)
+        ren = dict((s, s + '_r') for s in stores - params - lam - inner if s != node.name)
 
         class R(ast.NodeTransformer):
             def visit_Name(self, n):
@@ -533,7 +544,7 @@ class ListCopy(ast.NodeTransformer):
     def visit_For(self, node):
         self.generic_visit(node)
         if isinstance(node.iter, (ast.Name, ast.Attribute)) or (isinstance(node.iter, ast.Call) and not (
-                isinstance(node.iter.func, ast.Name) and node.iter.func.id in ('list', 'range', 'enumerate', 'zip', 'iter', 'reversed'))):
+                isinstance(node.iter.func, ast.Name) and node.iter.func.id in ('list', 'range', 'enumerate', 'zip', 'iter', 'reversed', 'filter', 'map'))):
             # a generator is consumed the same way; lazily produced items are produced up front - fine for lists / tuples / dicts
             if isinstance(node.iter, ast.Call) and isinstance(node.iter.func, (ast.Name, ast.Attribute)) and (
                     getattr(node.iter.func, 'id', getattr(node.iter.func, 'attr', '')) in (
@@ -544,11 +555,116 @@ class ListCopy(ast.NodeTransformer):
         return node
 
 
+class Eafp(ast.NodeTransformer):
+    def _fix(self, body):
+        out = []
+        i = 0
+        while i < len(body):
+            st = body[i]
+            nx = body[i + 1] if i + 1 < len(body) else None
+            if isinstance(st, ast.Assign) and len(st.targets) == 1 and isinstance(st.targets[0], ast.Name) \
+                    and isinstance(st.value, (ast.Constant, ast.Name, ast.Attribute)) and isinstance(nx, ast.If) and not nx.orelse \
+                    and len(nx.body) == 1 and isinstance(nx.body[0], ast.Assign) and len(nx.body[0].targets) == 1 \
+                    and isinstance(nx.body[0].targets[0], ast.Name) and nx.body[0].targets[0].id == st.targets[0].id \
+                    and isinstance(nx.test, ast.Compare) and len(nx.test.ops) == 1 and isinstance(nx.test.ops[0], ast.In) \
+                    and isinstance(nx.test.left, ast.Constant) and isinstance(nx.test.comparators[0], ast.Name) \
+                    and isinstance(nx.body[0].value, ast.Subscript) and isinstance(nx.body[0].value.value, ast.Name) \
+                    and nx.body[0].value.value.id == nx.test.comparators[0].id \
+                    and isinstance(nx.body[0].value.slice, ast.Constant) and nx.body[0].value.slice.value == nx.test.left.value:
+                handler = ast.ExceptHandler(type=ast.Name(id='KeyError', ctx=ast.Load()), name=None, body=[st])
+                new = ast.Try(body=[nx.body[0]], handlers=[handler], orelse=[], finalbody=[])
+                out.append(ast.copy_location(new, st))
+                i += 2
+                continue
+            out.append(st)
+            i += 1
+        return out
+
+    def generic_visit(self, node):
+        super().generic_visit(node)
+        for fld in ('body', 'orelse', 'finalbody'):
+            b = getattr(node, fld, None)
+            if isinstance(b, list) and b and isinstance(b[0], ast.stmt):
+                setattr(node, fld, self._fix(b))
+        return node
+
+
+class FilterLoop(ast.NodeTransformer):
+    """for x in it: if c: B   ->   for x in filter(lambda x: c, it): B      (filter is lazy: c runs at the same moments)"""
+    def visit_For(self, node):
+        self.generic_visit(node)
+        if isinstance(node.target, ast.Name) and len(node.body) == 1 and isinstance(node.body[0], ast.If) \
+                and not node.body[0].orelse and not any(isinstance(x, (ast.NamedExpr, ast.Yield, ast.YieldFrom, ast.Await))
+                                                        for x in ast.walk(node.body[0].test)):
+            lam = ast.Lambda(args=ast.arguments(posonlyargs=[], args=[ast.arg(arg=node.target.id)], kwonlyargs=[],
+                                                kw_defaults=[], defaults=[]), body=node.body[0].test)
+            node.iter = ast.Call(func=ast.Name(id='filter', ctx=ast.Load()), args=[lam, node.iter], keywords=[])
+            node.body = node.body[0].body
+        return node
+
+
+class Closure(ast.NodeTransformer):
+    """if c: S1; S2 ...   ->   def _block_k(): S1; S2 ...  /  if c: _block_k()     for blocks that bind no name and do not
+    leave (no return / break / continue / yield): a local closure reads the enclosing variables at the time of the call"""
+    def __init__(self):
+        self.k = 0
+        self.depth = 0
+
+    def visit_FunctionDef(self, node):
+        self.depth += 1
+        self.generic_visit(node)
+        self.depth -= 1
+        return node
+
+    def visit_ClassDef(self, node):
+        return node
+
+    def _eligible(self, body):
+        if len(body) < 2:
+            return False
+        for st in body:
+            for x in ast.walk(st):
+                if isinstance(x, (ast.Return, ast.Break, ast.Continue, ast.Yield, ast.YieldFrom, ast.Await, ast.Global,
+                                  ast.Nonlocal, ast.NamedExpr, ast.FunctionDef, ast.ClassDef, ast.Import, ast.ImportFrom,
+                                  ast.Delete)):
+                    return False
+                if isinstance(x, ast.Name) and not isinstance(x.ctx, ast.Load):
+                    return False
+                if isinstance(x, ast.ExceptHandler) and x.name:
+                    return False
+                if isinstance(x, (ast.ListComp, ast.SetComp, ast.DictComp, ast.GeneratorExp, ast.Lambda)):
+                    return False        # their variables are bound names, too
+        return True
+
+    def _fix(self, body):
+        out = []
+        for st in body:
+            if self.depth and isinstance(st, ast.If) and self._eligible(st.body):
+                self.k += 1
+                nm = '_block_%d' % self.k
+                d = ast.FunctionDef(name=nm, args=ast.arguments(posonlyargs=[], args=[], kwonlyargs=[], kw_defaults=[],
+                                                                defaults=[]), body=st.body, decorator_list=[], returns=None,
+                                    type_comment=None, type_params=[])
+                out.append(ast.copy_location(d, st))
+                st.body = [ast.copy_location(ast.Expr(value=ast.Call(func=ast.Name(id=nm, ctx=ast.Load()), args=[],
+                                                                     keywords=[])), st)]
+            out.append(st)
+        return out
+
+    def generic_visit(self, node):
+        super().generic_visit(node)
+        for fld in ('body', 'orelse', 'finalbody'):
+            b = getattr(node, fld, None)
+            if isinstance(b, list) and b and isinstance(b[0], ast.stmt):
+                setattr(node, fld, self._fix(b))
+        return node
+
+
 REWRITES = {'alpha': Alpha, 'flip': Flip, 'notin': NotIn, 'noop': Noop, 'docs': Docs, 'unparse': None,
             'modalias': ModAlias, 'fromimp': FromImp, 'swapif': SwapIf, 'lenzero': LenZero, 'fstring': FString,
             'uncomp': UnComp, 'elseret': ElseRet, 'ternary': Ternary, 'hoistarg': HoistArg, 'keyconst': KeyConst,
             'kwcall': KwCall, 'mergeif': MergeIf, 'splitand': SplitAnd, 'whiletrue': WhileTrue, 'dotformat': DotFormat,
-            'listcopy': ListCopy}
+            'listcopy': ListCopy, 'eafp': Eafp, 'filterloop': FilterLoop, 'closure': Closure}
 
 
 def apply(name, src):
